@@ -20,17 +20,17 @@ LENGTH_UNITS = {'em', 'ex', 'px', 'in', 'cm', 'mm', 'pt', 'pc', 'rem', 'ch', 'vw
 
 
 def run(chk):
-    r18a(chk)
-    r18b(chk)
-    r18c(chk)
-    r18d(chk)
-    r18g(chk)
-    r18h(chk)
-    r18i(chk)
+    chk.attempt(r18a, chk)
+    chk.attempt(r18b, chk)
+    chk.attempt(r18c, chk)
+    chk.attempt(r18d, chk)
+    chk.attempt(r18g, chk)
+    chk.attempt(r18h, chk)
+    chk.attempt(r18i, chk)
     from .c03 import r03a, r03b
 
-    r03a(chk, 'R18.e')
-    r03b(chk, 'R18.f')
+    chk.attempt(r03a, chk, 'R18.e')
+    chk.attempt(r03b, chk, 'R18.f')
 
 
 def r18a(chk, rid='R18.a'):
